@@ -10,6 +10,9 @@ import lib
 OPS = ["load27", "load38", "load312", "load313", "load15", "loadnative", "dis27classic", "dis38xasm", "dis312ext", "dis313bytes",
        "opc27", "opc313", "opc36pypy", "std36", "std312", "marsh", "loadcorrupt", "importgraal", "std27", "std27pypy", "marsh27a", "marsh27b", "loaddropbox", "marshcode27", "load38nocode", "dis10classic", "dis311classic"]
 
+CORE = ["load27", "load312", "loadnative", "dis38xasm", "dis312ext", "dis10classic", "dis311classic", "opc36pypy", "std27", "std27pypy",
+        "marsh27a", "loaddropbox"]
+
 RULE = ("one case = one history (sequence of public operations: load_module of 1.5/2.7/3.8/3.12/3.13 files via xdis's unmarshaller and via the "
         "native fast path, disassemble_file in four formats, get_opcode for three tables, make_std_api for two versions, marsh dumps+loads, "
         "a corrupt file, a late import of an opcode module) enumerated by Session.tla and replayed in a forked child of a pristine process; "
@@ -44,21 +47,32 @@ def run(tier, rep):
     quick = tier == "quick"
     d = lib.fresh("c18")
     cfg = d / "cfg.json"
-    cfg.write_text(json.dumps({"ops": OPS, "maxlen": 2 if quick else 3, "export": 1}))
+    cfg.write_text(json.dumps({"ops": OPS, "maxlen": 2, "export": 1}))
     r = lib.tlc("Session", workers=1, env={"GEN_CFG": cfg}, tag="c18gen", timeout=3000)
     lib.require_clean(r, "Session")
-    rep.mc(r, "Session(maxlen=%d, %d ops)" % (2 if quick else 3, len(OPS)))
+    rep.mc(r, "Session(maxlen=2, %d ops)" % len(OPS))
+    runs = [r]
+    if not quick:
+        # every history of three operations over the operations that are known to touch shared state or to read it back (12 of them:
+        # 1 728 histories); all 29 operations would be 24 389 histories of about 0.2 s per operation
+        cfg3 = d / "cfg3.json"
+        cfg3.write_text(json.dumps({"ops": CORE, "maxlen": 3, "export": 1}))
+        r3 = lib.tlc("Session", workers=1, env={"GEN_CFG": cfg3}, tag="c18gen3", timeout=3000)
+        lib.require_clean(r3, "Session")
+        rep.mc(r3, "Session(maxlen=3, %d core ops)" % len(CORE))
+        runs.append(r3)
     hists, seen = [], set()
-    for b in lib.parse_beh(r):
-        k = tuple(b["hist"])
-        if k not in seen:
-            seen.add(k)
-            hists.append(b["hist"])
+    for r_ in runs:
+        for b in lib.parse_beh(r_):
+            k = tuple(b["hist"])
+            if k not in seen:
+                seen.add(k)
+                hists.append(b["hist"])
     rep.exhaustive = True
     # deeper histories by seeded sampling (TLC -simulate would do the same walk; the walk is a uniform choice of operations)
     rnd = random.Random(lib.seed())
     nexh = len(hists)
-    for _ in range(300 if quick else 3000):
+    for _ in range(300 if quick else 1500):
         n = 5 if quick else 8
         hists.append([rnd.choice(OPS) for _ in range(n)])
     fl = d / "files.json"
@@ -114,7 +128,7 @@ def run(tier, rep):
         if len(x["hist"]) >= 2:
             rep.nontriv(tuple(x["hist"]) + (x["host"],))
     rep.sample({"history": hists[40], "operations": OPS})
-    rep.extra["inputs"] = {"histories": len(hists), "exhaustive_up_to": 2 if quick else 3, "sampled_length": 5 if quick else 8, "hosts": hosts}
+    rep.extra["inputs"] = {"histories": len(hists), "exhaustive_up_to": "2 (all operations)" if quick else "2 (all operations), 3 (12 core operations)", "sampled_length": 5 if quick else 8, "hosts": hosts}
     rep.assumptions += ["results are compared through digests (token digest of code trees, masked listing text, table contents)",
                         "the fresh-process baseline is taken in a forked child of the same pristine post-import image"]
 
